@@ -75,22 +75,11 @@ impl Fields {
     }
 
     pub(super) fn samples(&self) -> &str {
-        const DELIMITER: char = '\t';
-
         let src = &self.buf[self.bounds.samples_range()];
 
-        let is_missing = || {
-            src.split(DELIMITER)
-                .next()
-                .map(|s| s == MISSING)
-                .unwrap_or_default()
-        };
-
-        if src.is_empty() || is_missing() {
-            ""
-        } else {
-            src
-        }
+        // A missing FORMAT column (`.`) followed by sample columns still has samples (without
+        // values), as the record buffer reader reads it; only `.` alone is no samples.
+        if src == MISSING { "" } else { src }
     }
 }
 
